@@ -86,16 +86,15 @@ def renderNatAux : Nat → Nat → List Nat → List Nat
     if n < 10 then digitChar n :: acc else renderNatAux fuel (n / 10) (digitChar (n % 10) :: acc)
 def renderNat (n : Nat) : List Nat := renderNatAux (n + 1) n []
 
+/-- `h[:m[:s]]` of a non-negative number of seconds, shortest form -/
+def renderHmsAbs (a : Nat) : List Nat :=
+  renderNat (a / 3600)
+    ++ (if a % 60 ≠ 0 then [58] ++ renderNat (a / 60 % 60) ++ [58] ++ renderNat (a % 60)
+        else if a / 60 % 60 ≠ 0 then [58] ++ renderNat (a / 60 % 60) else [])
+
 /-- `[-]h[:m[:s]]`, shortest form -/
 def renderHms (v : Int) : List Nat :=
-  let a := v.natAbs
-  let h := a / 3600
-  let m := a / 60 % 60
-  let s := a % 60
-  (if v < 0 then [45] else [])
-    ++ renderNat h
-    ++ (if s ≠ 0 then [58] ++ renderNat m ++ [58] ++ renderNat s
-        else if m ≠ 0 then [58] ++ renderNat m else [])
+  (if v < 0 then [45] else []) ++ renderHmsAbs v.natAbs
 
 /-- alphabetic designations are written bare, the others in angle brackets -/
 def renderName (n : List Nat) : List Nat := if n.all isAlpha then n else [60] ++ n ++ [62]
